@@ -42,7 +42,15 @@ fn scratch_dir() -> PathBuf {
     d
 }
 
+/// A worker of the interpreter-less pass (see `Scenario::BARE_PASS`).
+pub fn bare() -> bool {
+    std::env::var("VERIF_BARE").map(|v| v == "1").unwrap_or(false)
+}
+
 fn init_python() {
+    if bare() {
+        return;
+    }
     crate::pyx::init();
 }
 
@@ -53,6 +61,9 @@ pub struct Found {
     #[serde(default)]
     pub range_start: u64,
     pub unit: u64,
+    /// met in a process without a Python interpreter
+    #[serde(default)]
+    pub bare: bool,
     pub signature: String,
     pub message: String,
     pub plan: Value,
@@ -128,7 +139,15 @@ fn worker<S: Scenario>(
     let progress_path = out.with_extension("progress");
     let mut progress = std::fs::File::create(&progress_path).expect("progress file");
     start_watchdog();
+    let is_bare = bare();
     for unit in start..end {
+        if is_bare && !bare_unit(unit) {
+            o.units += 1;
+            continue;
+        }
+        if is_bare {
+            obs.count("fault.NO_INTERPRETER");
+        }
         let mut first_in_unit = true;
         let mut ordinal = 0u64;
         S::unit(seed, tier, unit, &mut |plan: S::Plan| {
@@ -156,6 +175,7 @@ fn worker<S: Scenario>(
                         property: v.property.clone(),
                         range_start: start,
                         unit,
+                        bare: is_bare,
                         signature: v.signature.clone(),
                         message: v.message.clone(),
                         plan: serde_json::from_str(&pj).unwrap(),
@@ -191,6 +211,13 @@ fn worker<S: Scenario>(
 
 pub static HEARTBEAT: std::sync::atomic::AtomicU64 = std::sync::atomic::AtomicU64::new(0);
 pub const HANG_EXIT: i32 = 86;
+/// Set by the parent while it runs the interpreter-less pass: workers spawned meanwhile get
+/// VERIF_BARE=1.
+static SPAWN_BARE: std::sync::atomic::AtomicBool = std::sync::atomic::AtomicBool::new(false);
+/// The units of the interpreter-less pass (a pure function of the unit number).
+pub fn bare_unit(unit: u64) -> bool {
+    unit % 8 == 3
+}
 /// Multiplier of the hang limit for the plan now running (set before each plan).
 pub static BUDGET: std::sync::atomic::AtomicU64 = std::sync::atomic::AtomicU64::new(1);
 
@@ -307,6 +334,10 @@ fn spawn_workers(
         if digests {
             cmd.arg("digests");
         }
+        cmd.env(
+            "VERIF_BARE",
+            if SPAWN_BARE.load(std::sync::atomic::Ordering::Relaxed) { "1" } else { "0" },
+        );
         cmd.stdin(Stdio::null());
         let child = cmd.spawn().expect("spawn worker");
         v.push(Spawned {
@@ -582,6 +613,13 @@ fn check_impl<S: Scenario>(id: &str, tier: Tier) -> i32 {
     let mut truncated = false;
     // ranges of units still to run; a worker that dies (abort, stack overflow, hang) names
     // the plan it was executing, that plan becomes a violation, and the rest is re-run
+    let passes: u64 = if S::BARE_PASS { 2 } else { 1 };
+    for pass in 0..passes {
+    let bare_pass = pass == 1;
+    SPAWN_BARE.store(bare_pass, std::sync::atomic::Ordering::Relaxed);
+    if bare_pass && (!harness.is_empty() || truncated) {
+        break;
+    }
     let mut todo: Vec<(u64, u64)> = vec![(0, total)];
     let mut round = 0;
     while !todo.is_empty() && round < 40 {
@@ -597,7 +635,7 @@ fn check_impl<S: Scenario>(id: &str, tier: Tier) -> i32 {
                 *a,
                 per,
                 &dir,
-                &format!("r{}x{}", round, ri),
+                &format!("p{}r{}x{}", pass, round, ri),
                 false,
             ));
         }
@@ -672,6 +710,7 @@ fn check_impl<S: Scenario>(id: &str, tier: Tier) -> i32 {
                                 property: id.to_string(),
                                 range_start: u,
                                 unit: u,
+                                bare: bare_pass,
                                 signature: sig,
                                 message: msg,
                                 plan: serde_json::to_value(&plan).unwrap(),
@@ -722,6 +761,9 @@ fn check_impl<S: Scenario>(id: &str, tier: Tier) -> i32 {
             break;
         }
     }
+    }
+    SPAWN_BARE.store(false, std::sync::atomic::Ordering::Relaxed);
+    let total = total * passes;
     let _ = std::fs::remove_dir_all(&dir);
 
     // ---- classify violations
@@ -898,6 +940,9 @@ struct ReplayFile {
     units: Option<Vec<u64>>,
     #[serde(default)]
     tier: Option<String>,
+    /// the violation shows in a process without a Python interpreter (replay honours it)
+    #[serde(default)]
+    bare: bool,
 }
 
 fn report_violation(id: &str, seed: u64, tier_name: &str, f: &Found) -> Result<PathBuf, String> {
@@ -915,6 +960,7 @@ fn report_violation(id: &str, seed: u64, tier_name: &str, f: &Found) -> Result<P
         Err(std::io::Error::new(std::io::ErrorKind::Other, "not minimised"))
     } else {
         Command::new(&exe)
+            .env("VERIF_BARE", if f.bare { "1" } else { "0" })
             .arg("minimise")
             .arg(id)
             .arg(&plan_in)
@@ -953,6 +999,7 @@ fn report_violation(id: &str, seed: u64, tier_name: &str, f: &Found) -> Result<P
         how_to_replay: format!("cd /verif && ./check replay {}", path.display()),
         units: None,
         tier: None,
+        bare: f.bare,
     };
     std::fs::write(&path, serde_json::to_vec_pretty(&rf).unwrap()).map_err(|e| e.to_string())?;
     // replay in a fresh process must reproduce the same signature
@@ -989,6 +1036,7 @@ fn report_violation(id: &str, seed: u64, tier_name: &str, f: &Found) -> Result<P
             how_to_replay: format!("cd /verif && ./check replay {}", path.display()),
             units: Some(units.to_vec()),
             tier: Some(tier.clone()),
+            bare: f.bare,
         };
         std::fs::write(&path, serde_json::to_vec_pretty(&rf).unwrap())
             .map_err(|e| e.to_string())?;
@@ -1105,6 +1153,8 @@ pub fn replay_main(file: &str) -> i32 {
             return 2;
         }
     };
+    // a replay runs with or without the interpreter as the recorded execution did
+    std::env::set_var("VERIF_BARE", if rf.bare { "1" } else { "0" });
     init_python();
     let id = rf.property.clone();
     dispatch!(id.as_str(), replay(&rf, file))
